@@ -312,6 +312,36 @@ func c10() []*Ob {
 						}
 					}
 				}
+				// the returned slice is a view of the bufio buffer, valid until the next read: between the
+				// readDoc that produced it and the return nothing may touch the reader again
+				isReaderCall := c.P.MayCall(func(cl ssa.CallInstruction) bool {
+					n := CallName(cl)
+					return strings.HasPrefix(n, "(*bufio.Reader).") && n != "(*bufio.Reader).Buffered" && n != "(*bufio.Reader).Size"
+				})
+				isReadDoc := Callee("(*proxyapi.esBulkDocReader).readDoc")
+				for _, b := range fn.Blocks {
+					ret, ok := b.Instrs[len(b.Instrs)-1].(*ssa.Return)
+					if !ok || IsNilConst(RetOperand(ret, 0)) {
+						continue
+					}
+					for _, x := range CallsIn(fn, isReaderCall) {
+						xi := x.(ssa.Instruction)
+						if isReadDoc(x) || !Dominates(xi, ret) {
+							continue
+						}
+						fresh := false
+						for _, y := range rd {
+							if Dominates(xi, y.(ssa.Instruction)) && Dominates(y.(ssa.Instruction), ret) {
+								fresh = true
+							}
+						}
+						if fresh {
+							c.Site(x.Pos(), "reader activity is followed by the readDoc that produces the returned line")
+						} else {
+							c.Violation("alias:ReadDoc:read-after-line", x.Pos(), "ReadDoc touches the bufio reader (%s) after the document line was read and before it is returned: a refill of the buffer overwrites the bytes of the returned document (ReadLine's result is only valid until the next read)", CallName(x))
+						}
+					}
+				}
 				// the over-size branch stays in the loop
 				if len(rd) > 0 && InLoop(rd[0].(ssa.Instruction).Block()) {
 					c.Site(rd[0].Pos(), "over-size documents are skipped by continuing the loop")
